@@ -490,6 +490,7 @@ void substitute_type_parameters(
     // 型名の置換
     if (!node->type_name.empty()) {
         std::string substituted;
+        const std::string type_name_before = node->type_name;
 
         // 正規化済みのジェネリック型名 (例: Box_T) または通常のジェネリック型名
         // (例: Box<T>)
@@ -520,10 +521,20 @@ void substitute_type_parameters(
         }
 
         // 基本型の場合のみtype_infoを更新
-        if (!node->type_name.empty() &&
+        // only when the name was actually rewritten: a node whose type does not
+        // mention a type parameter keeps the type_info the parser gave it; and
+        // only for names parse_type_from_string knows (builtin types, typedefs):
+        // its answer for any other name (struct, enum, ...) is the TYPE_INT
+        // default, which is wrong for them - such a declaration keeps the
+        // parser's type_info and is resolved through its type_name
+        if (node->type_name != type_name_before && !node->type_name.empty() &&
             node->type_name.find('<') == std::string::npos &&
             node->type_name.find('_') == std::string::npos) {
-            node->type_info = parse_type_from_string(node->type_name);
+            TypeInfo rewritten = parse_type_from_string(node->type_name);
+            if (node->type_name == "int" || rewritten != TYPE_INT ||
+                get_global_type_alias_registry().has_alias(node->type_name)) {
+                node->type_info = rewritten;
+            }
         }
     }
 
@@ -614,6 +625,23 @@ void substitute_type_parameters(
         }
     }
 
+    // new T / new T[n]
+    if (!node->new_type_name.empty()) {
+        std::string substituted =
+            substitute_generic_type_name(node->new_type_name, type_map);
+        if (substituted != node->new_type_name) {
+            node->new_type_name = substituted;
+            if (substituted.find('<') == std::string::npos) {
+                node->new_type_info = parse_type_from_string(substituted);
+            }
+        }
+    }
+
+    // 型引数の置換 (g<T>(x) inside f<T>)
+    for (auto &type_arg : node->type_arguments) {
+        type_arg = substitute_generic_type_name(type_arg, type_map);
+    }
+
     // 子ノードを再帰的に処理
     if (node->left) {
         substitute_type_parameters(node->left.get(), type_map);
@@ -634,6 +662,59 @@ void substitute_type_parameters(
         substitute_type_parameters(node->body.get(), type_map);
     }
 
+    // the remaining child pointers of ASTNode
+    if (node->third) {
+        substitute_type_parameters(node->third.get(), type_map);
+    }
+    if (node->update_expr) {
+        substitute_type_parameters(node->update_expr.get(), type_map);
+    }
+    if (node->array_index) {
+        substitute_type_parameters(node->array_index.get(), type_map);
+    }
+    if (node->array_size_expr) {
+        substitute_type_parameters(node->array_size_expr.get(), type_map);
+    }
+    if (node->try_body) {
+        substitute_type_parameters(node->try_body.get(), type_map);
+    }
+    if (node->catch_body) {
+        substitute_type_parameters(node->catch_body.get(), type_map);
+    }
+    if (node->finally_body) {
+        substitute_type_parameters(node->finally_body.get(), type_map);
+    }
+    if (node->throw_expr) {
+        substitute_type_parameters(node->throw_expr.get(), type_map);
+    }
+    if (node->switch_expr) {
+        substitute_type_parameters(node->switch_expr.get(), type_map);
+    }
+    if (node->else_body) {
+        substitute_type_parameters(node->else_body.get(), type_map);
+    }
+    if (node->case_body) {
+        substitute_type_parameters(node->case_body.get(), type_map);
+    }
+    if (node->match_expr) {
+        substitute_type_parameters(node->match_expr.get(), type_map);
+    }
+    if (node->range_start) {
+        substitute_type_parameters(node->range_start.get(), type_map);
+    }
+    if (node->range_end) {
+        substitute_type_parameters(node->range_end.get(), type_map);
+    }
+    if (node->default_value) {
+        substitute_type_parameters(node->default_value.get(), type_map);
+    }
+    if (node->new_array_size) {
+        substitute_type_parameters(node->new_array_size.get(), type_map);
+    }
+    if (node->delete_expr) {
+        substitute_type_parameters(node->delete_expr.get(), type_map);
+    }
+
     // ベクタ内のノードを処理
     for (const auto &stmt : node->statements) {
         substitute_type_parameters(stmt.get(), type_map);
@@ -646,6 +727,33 @@ void substitute_type_parameters(
     }
     for (const auto &case_node : node->cases) {
         substitute_type_parameters(case_node.get(), type_map);
+    }
+    // the remaining child vectors of ASTNode
+    for (const auto &child : node->children) {
+        substitute_type_parameters(child.get(), type_map);
+    }
+    for (const auto &child : node->array_dimensions) {
+        substitute_type_parameters(child.get(), type_map);
+    }
+    for (const auto &child : node->array_indices) {
+        substitute_type_parameters(child.get(), type_map);
+    }
+    for (const auto &child : node->impl_static_variables) {
+        substitute_type_parameters(child.get(), type_map);
+    }
+    for (const auto &child : node->case_values) {
+        substitute_type_parameters(child.get(), type_map);
+    }
+    for (const auto &child : node->lambda_params) {
+        substitute_type_parameters(child.get(), type_map);
+    }
+    for (const auto &child : node->interpolation_segments) {
+        substitute_type_parameters(child.get(), type_map);
+    }
+    for (auto &arm : node->match_arms) {
+        substitute_type_parameters(arm.body.get(), type_map);
+        arm.enum_type_name =
+            substitute_generic_type_name(arm.enum_type_name, type_map);
     }
 }
 
